@@ -47,6 +47,61 @@ def hooks_present(ctx):
     return not missing
 
 
+TIME_PATTERNS = [
+    (r'^\s*(?:import\s+)?(?:\w+\s+)?"time"', 'import "time"'),
+    (r'^\s*(?:import\s+)?(?:\w+\s+)?"context"', 'import "context"'),
+    (r"\btime\.\w+", "use of package time"),
+    (r"\bcontext\.\w+", "use of package context"),
+    (r"\bSet(?:Read|Write)?Deadline\b", "Set*Deadline"),
+    (r"\bDialTimeout\b|\bnet\.Dialer\b|\bListenConfig\b|\bKeepAlive\b", "net dial/listen timeout configuration"),
+    (r"\b(?:[Tt]imeout|[Dd]eadline|Ticker|Timer|Sleep|AfterFunc)\b", "timeout/deadline/ticker/sleep identifier"),
+]
+LATE_QUICK = "gap:6000"
+LATE_THOROUGH = "gap:6000,gap:12000,start:6000,start:12000,leader:6000,leader:12000,gap:31000,leader:31000"
+LATE_WIDE = LATE_THOROUGH + ",start:31000,gap:9000,gap:16000,gap:21000,leader:21000,gap:61000"
+
+
+def strip_go_comments(src):
+    src = re.sub(r"/\*.*?\*/", lambda m: "\n" * m.group(0).count("\n"), src, flags=re.S)
+    out = []
+    for line in src.split("\n"):
+        # cut a // comment that is not inside a string literal (good enough for these files)
+        q = False
+        cut = len(line)
+        i = 0
+        while i < len(line) - 1:
+            ch = line[i]
+            if ch == '"' and (i == 0 or line[i - 1] != "\\"):
+                q = not q
+            elif not q and line[i:i + 2] == "//":
+                cut = i
+                break
+            i += 1
+        out.append(line[:cut])
+    return "\n".join(out)
+
+
+def time_independence(ctx):
+    """The model has no clock: the mesh-formation code (network.go, peer.go and the Conn methods of
+    protocol.go it calls during setup) must not depend on time.  A hit is a broken obligation and
+    switches on the long-delay schedules of the widened search."""
+    hits = []
+    for rel in ("p2p/network.go", "p2p/peer.go", "p2p/protocol.go"):
+        try:
+            src = strip_go_comments(vlib.repo_file(rel))
+        except Exception as e:
+            hits.append("%s: unreadable (%s)" % (rel, e))
+            continue
+        for no, line in enumerate(src.split("\n"), 1):
+            for pat, what in TIME_PATTERNS:
+                if re.search(pat, line):
+                    hits.append("%s:%d: %s: %s" % (rel, no, what, line.strip()[:100]))
+                    break
+    ctx.fact("mesh-formation code has no time dependence (no package time/context, no Set*Deadline, no dial/listen "
+             "timeouts, no tickers/timers/sleeps in p2p/network.go, p2p/peer.go, p2p/protocol.go)", hits[:12], [])
+    return not hits
+
+
 def body(func_re):
     b = vlib.go_func_body("p2p/network.go", func_re)
     return re.sub(r"\s+", " ", b) if b else ""
@@ -106,13 +161,17 @@ def run(ctx):
     ctx.build_drv()
     have_hooks = hooks_present(ctx)
     facts(ctx)
+    timeless = time_independence(ctx)
     quick = ctx.tier == "quick"
     n = 600 if quick else 5000
     par = "8" if quick else "12"
     seeds = [ctx.seed] if quick else [ctx.seed, ctx.seed + 1000, ctx.seed + 2000]
     if have_hooks and ctx.build_hx():
         for s in seeds:
-            ops, out, meta = ctx.run_hx("mesh", n, seed=s, extra_args=["-par", par])
+            # long-delay schedules (one party far later than any plausible timeout) run in parallel
+            # with the regular sessions of the first seed: one in the quick tier, eight in thorough
+            late = (LATE_QUICK if quick else LATE_THOROUGH) if s == seeds[0] else ""
+            ops, out, meta = ctx.run_hx("mesh", n, seed=s, extra_args=["-par", par] + (["-late", late] if late else []))
             ctx.absorb_meta(meta)
             ctx.correspond("recorded traces are runs of the model with the observed outcome (seed %d)" % s, ops, out)
             for line in open(ops, errors="replace"):
@@ -139,7 +198,9 @@ def run(ctx):
         if ctx.broken and not [f for f in ctx.fails if not ctx.is_known(f)]:
             # widened search for a concrete failing session (oracle only)
             for s in range(ctx.seed + 7000, ctx.seed + 7003):
-                ops, out, meta = ctx.run_hx("mesh", 400, seed=s, tag="-widen", extra_args=["-par", "12"])
+                late = LATE_WIDE if s == ctx.seed + 7000 else ""
+                ops, out, meta = ctx.run_hx("mesh", 400, seed=s, tag="-widen",
+                                            extra_args=["-par", "20"] + (["-late", late] if late else []))
                 ctx.absorb_meta(meta, prefix="widen_")
                 if [f for f in ctx.fails if not ctx.is_known(f)]:
                     break
@@ -152,7 +213,8 @@ def run(ctx):
         "the check of need[k] and the store); oracle per session: every Connect returns nil before the deadline, table at return and final table "
         "complete (n peers, exactly m non-nil connections each, no *Conn in two slots, need all 0), tagged ping "
         "(from,to,k) on every Peers[q].Conns[k] in both directions arrives on the peer's Conns[k] for the sender; "
-        "distinct = distinct recorded traces")
+        "plus long-delay sessions (one party's Connect 6 s after its Join in the quick tier; gap/start/leader lateness "
+        "of 6, 12, 31 s in the thorough tier); distinct = distinct recorded traces")
     ctx.assumptions += [
         "TCP modelled as: a connection becomes acceptable when its hello is sent, accept order arbitrary (the real "
         "accept loop takes connections in establishment order and blocks on a missing hello: fewer behaviours); "
@@ -163,6 +225,9 @@ def run(ctx):
         "in a recorded trace the store of an accepted connection is placed directly before its need[k]-- (it has no "
         "hook of its own; it lies between the hooks accepted and accdec on one goroutine)",
         "real timing is sampled (seeded delays + OS scheduling), not enumerated; m <= 256 (dial rejects larger ids)",
+        "the model has no clock: that the mesh-formation code does not depend on time is a structural fact extracted "
+        "from p2p/network.go, peer.go, protocol.go on every run, backed by long-delay sessions (a party 6 s .. 31 s late "
+        "between Join and Connect, before Join, or the leader late; up to 61 s in the widened search)",
         "Create precedes every Join (otherwise Join returns 'connection refused'); every party calls Connect",
     ]
     ctx.trusted = vlib.DEFAULT_TRUSTED + [
